@@ -53,7 +53,7 @@ def run(ctx):
             broken.append("correspondence c04_mismatches: model and implementation disagree on case %s" % json.dumps(cases[i].get("sample"), default=str)[:1500])
     info = []
     if ctx.tier == "thorough":
-        hr2 = vf.go_harness(ctx, "index", "TestVerifC04Race$", ["index/zz_verif_c04_test.go"], 60, race=True,
+        hr2 = vf.go_harness(ctx, "index", "TestVerifC04Race$", ["index/zz_verif_c04_test.go"], 24, race=True,
                             timeout=3000, out_name="out-race.jsonl")
         nrace = 0
         for r in hr2["records"]:
